@@ -4102,6 +4102,67 @@ func runC17(c *Ctx) {
 						}
 					}
 				}
+				// other shapes of the same test: the pending word is kept as an integer (its start, negative between words) that is
+				// compared with -1 or 0, or a helper / function literal that appends to the token list (the flush) is called first
+				if !pendingTested {
+					depth := loopDepthOf(st.Block())
+					flushes := func(g *ssa.Function) bool {
+						if g == nil || len(g.Blocks) == 0 {
+							return false
+						}
+						for _, call := range core.CallsIn(g) {
+							if bi, isB := call.Common().Value.(*ssa.Builtin); isB && bi.Name() == "append" {
+								return true
+							}
+						}
+						return false
+					}
+					for d := st.Block(); d != nil && !pendingTested; d = d.Idom() {
+						if loopDepthOf(d) != depth {
+							continue
+						}
+						for _, in := range d.Instrs {
+							if d == st.Block() && in == ssa.Instruction(st) {
+								break
+							}
+							if call, isCall := in.(*ssa.Call); isCall {
+								if g := call.Call.StaticCallee(); flushes(g) && core.FuncPkgPath(g) == core.FuncPkgPath(tk) {
+									pendingTested = true
+								}
+								if mc, isMC := call.Call.Value.(*ssa.MakeClosure); isMC {
+									if g, ok := mc.Fn.(*ssa.Function); ok && flushes(g) {
+										pendingTested = true
+									}
+								}
+								// a closure kept in a local variable
+								if ld, isLd := call.Call.Value.(*ssa.UnOp); isLd {
+									if al, isAl := ld.X.(*ssa.Alloc); isAl {
+										for _, r := range *al.Referrers() {
+											if st2, isSt := r.(*ssa.Store); isSt {
+												if mc, isMC := st2.Val.(*ssa.MakeClosure); isMC {
+													if g, ok := mc.Fn.(*ssa.Function); ok && flushes(g) {
+														pendingTested = true
+													}
+												}
+											}
+										}
+									}
+								}
+							}
+						}
+						if ifi, isIf := d.Instrs[len(d.Instrs)-1].(*ssa.If); isIf && d != st.Block() {
+							if bo, isBo := ifi.Cond.(*ssa.BinOp); isBo {
+								for _, pair := range [][2]ssa.Value{{bo.X, bo.Y}, {bo.Y, bo.X}} {
+									if k, isK := core.ConstInt(pair[1]); isK && (k == -1 || k == 0) {
+										if _, isPhi := core.Unspill(pair[0]).(*ssa.Phi); isPhi {
+											pendingTested = true
+										}
+									}
+								}
+							}
+						}
+					}
+				}
 				if !pendingTested && bad == "" {
 					bad = p.Pos(lit.alloc.Pos())
 				}
